@@ -115,7 +115,7 @@ C01 = dict(
         "c01_oplog_clear_entry_2_4": H("quick", "Oplog::clear(2,4) writes one bitfield-only entry {drop, start 2, length 2} after the pending bytes with the current header bit; decodes back to it", "pending bytes < 1000", "start/end/header bits concrete per instance", timeout=600, extra=FS9000),
         "c01_oplog_clear_entry_0_1": H("quick", "Oplog::clear(0,1), header bits [1,0]", "pending bytes < 1000", "start/end/header bits concrete per instance", timeout=600, extra=FS9000),
         "c01_oplog_clear_entry_100_252": H("thorough", "Oplog::clear(100,252), header bits [0,1]", "pending bytes < 1000", "start/end/header bits concrete per instance", timeout=600, extra=FS9000),
-        "c01_oplog_append_changeset_entry": H("quick", "Oplog::append_changeset writes {nodes, upgrade(fork, ancestors, length, signature), bitfield} and returns a header with the changeset's root hash / signature / length", "compared byte positions (root hash, signature, entry bytes)", "one concrete changeset", timeout=900, extra=FS9000, rules=[(r"c01_oplog_append_changeset_entry", 70)], memloop=True),
+        "c01_oplog_append_changeset_entry": H("thorough", "Oplog::append_changeset writes {nodes, upgrade(fork, ancestors, length, signature), bitfield} and returns a header with the changeset's root hash / signature / length", "compared byte positions (root hash, signature, entry bytes)", "one concrete changeset", timeout=2400, extra=FS9000, rules=[(r"c01_oplog_append_changeset_entry", 70)], memloop=True),
     },
 )
 C01["functions"] += ["hypercore::oplog::Oplog::{clear,append_changeset,update_header_with_changeset,append_entries}"]
@@ -143,7 +143,7 @@ C08 = dict(
     ],
     harnesses={
         "c08_fixed_set_get": H("quick", "FixedBitfield set/get incl. changed flag", "i, k, j: any bit index of the page", "none", unwind=6, extra=UF),
-        "c08_fixed_set_range": H("quick", "two windowed set_range calls then get(j)", _win + " (twice); value: bool; j: any index of the page", "windows", rules=_BF_RULES, unwind=6, extra=UF),
+        "c08_fixed_set_range": H("quick", "two windowed set_range calls then get(j)", _win + " (twice); value: bool; j: any index of the page", "windows", rules=_BF_RULES, unwind=6, extra=UF, timeout=900),
         "c08_fixed_index_of": H("thorough", "index_of(true/false) near a range, None at the page end", "range: window, 1<=len<=40; positions up to 30 bits before / anywhere inside", "scan distance <= 70 bits", rules=_BF_RULES, timeout=900, unwind=6, extra=UF),
         "c08_fixed_last_index_of": H("thorough", "last_index_of(true/false) near a range, None at index 0", "range: window, 1<=len<=40; positions up to 30 bits after / anywhere inside", "scan distance <= 70 bits", rules=_BF_RULES, timeout=900, unwind=6, extra=UF),
         "c08_dyn_set_range_edge1": H("thorough", "DynamicBitfield set_range (start 32768-40) then get(j)", "length 1..96 symbolic; j < 4 pages; far index >= 4 pages", "start concrete per instance", rules=_BF_RULES, timeout=900, unwind=6, extra=FS9000),
@@ -275,8 +275,8 @@ PROPS["C12"] = C12
 _TREE_RULES = [(r"IterMut.*4fold|13generic_array|GenericArray", 34), (r"nodes_to_root", 66), (r"flat_tree|9flat_tree", 45), (r"writer_tree|block_data|prefix_sum|tree_shape|ref_tree", 70), (r"increase_cache", 10),
                (r"create_valueless_proof|upgrade_proof|block_and_seek_proof|seek_proof|seek_from_head|seek_trusted_tree|byte_offset_from_nodes|missing_nodes|verify_tree|verify_upgrade", 45),
                (r"SigningKey13verifying_key", 34), (r"ed25519_dalek", 120), (r"6absorb", 40), (r"blake2", 200)]
-def _T(desc="", sym="", bound="", tier="quick", timeout=900, unwind=6, extra=(), mem_gb=9):
-    return H(tier, desc, sym, bound, rules=_TREE_RULES, timeout=timeout, unwind=unwind, extra=extra, mem_gb=mem_gb)
+def _T(desc="", sym="", bound="", tier="quick", timeout=900, unwind=6, extra=(), mem_gb=9, memloop=False):
+    return H(tier, desc, sym, bound, rules=_TREE_RULES, timeout=timeout, unwind=unwind, extra=extra, mem_gb=mem_gb, memloop=memloop)
 C09 = dict(
     title="No request or proof from a peer can panic the node",
     variant="model",
@@ -410,22 +410,22 @@ PROPS["C13"] = C13
 
 # (registered here because they use the tree rules)
 C02["harnesses"].update({
-        "c02_replay_truncate_merges_roots": _T("replay on open: MerkleTree::truncate to a length where two roots merge yields exactly the new root / length / byte length", "length of the new leaf", "3 -> 4 blocks", timeout=900, extra=UF, mem_gb=16),
-        "c02_replay_truncate_grow_and_shrink": _T("MerkleTree::truncate to lengths where the root list shrinks / stays", "none", "3-block literal tree", timeout=600, extra=UF, mem_gb=16),
+        "c02_replay_truncate_merges_roots": _T("replay on open: MerkleTree::truncate to a length where two roots merge yields exactly the new root / length / byte length", "length of the new leaf", "3 -> 4 blocks", timeout=2400, memloop=True, tier="thorough"),
+        "c02_replay_truncate_grow_and_shrink": _T("MerkleTree::truncate to lengths where the root list shrinks / stays", "none", "3-block literal tree", timeout=2400, memloop=True, tier="thorough"),
 })
 C03["harnesses"].update({
     "c03_byte_offset_in_changeset_later_root": _T("a block delivered with an upgrade under the second root of the upgraded tree lands after the first root's bytes (empty replica)", "lengths of root 1 and leaf 4 < 2^40", "3-block upgraded tree", timeout=600),
     "c03_byte_offset_in_changeset_roots_differ": _T("same on a replica whose own roots differ from the changeset's", "three node lengths", "replica of 1 block upgrading to 3", timeout=600),
-    "c03_block_plus_upgrade_honest": _T("honest proof with a block below the replica's length plus an upgrade from its length is accepted and commitable", "2 block bytes, sibling hash, new leaf hash", "replica 2 blocks -> 3", timeout=1500),
+    "c03_block_plus_upgrade_honest": _T("honest proof with a block below the replica's length plus an upgrade from its length is accepted and commitable", "2 block bytes, sibling hash, new leaf hash", "replica 2 blocks -> 3", timeout=2400, tier="thorough", memloop=True, mem_gb=20),
 })
 C04["harnesses"].update({
-    "c04_block_plus_upgrade_altered_block": _T("a genuine upgrade does not switch off the block check: block below the replica's length with one altered byte + valid upgrade is refused, replica unchanged", "position and value of the altered byte, 2 block bytes, sibling hash, new leaf hash", "replica 2 blocks -> 3", timeout=1500),
+    "c04_block_plus_upgrade_altered_block": _T("a genuine upgrade does not switch off the block check: block below the replica's length with one altered byte + valid upgrade is refused, replica unchanged", "position and value of the altered byte, 2 block bytes, sibling hash, new leaf hash", "replica 2 blocks -> 3", timeout=2400, tier="thorough", memloop=True, mem_gb=20),
 })
 C05["groups"] = [dict(variant="model", patterns=["c05_", "c02_replay_truncate_merges"])]
 C05["harnesses"]["c02_replay_truncate_merges_roots"] = C02["harnesses"]["c02_replay_truncate_merges_roots"]
 C09["harnesses"].update({
     "c09_seek_untrusted_flushed_root": _T("seek against a sub-tree whose root node is not in memory: any byte offset below 2^40 gives a value/instructions/error, never an overflow", "bytes < 2^40", "3-block literal tree, root 4 flushed", timeout=600),
-    "c09_seek_untrusted_in_memory": _T("seek_untrusted_tree with every node in memory, either root", "bytes < 2^40, which root", "3-block literal tree", timeout=600),
+    "c09_seek_untrusted_in_memory": _T("seek_untrusted_tree with every node in memory, either root", "bytes < 2^40, which root", "3-block literal tree", timeout=1800, tier="thorough"),
 })
 C10["groups"] = [dict(variant="st", patterns=["c10_"]), dict(variant="model", patterns=["c02_flush_header_then", "c02_fresh_header_then"])]
 C10["harnesses"]["c02_flush_header_then_truncate"] = C02["harnesses"]["c02_flush_header_then_truncate"]
